@@ -637,6 +637,51 @@ func init() {
 		return out
 	})
 
+	// concrete-only string/byte search primitives (assembly in the real runtime)
+	concStr := func(in *Interp, v Value, what string) string {
+		switch x := v.(type) {
+		case string:
+			return x
+		case Slice:
+			if b, ok := concBytes(x); ok {
+				return string(b)
+			}
+		}
+		in.abort("unsupported: %s on symbolic data", what)
+		return ""
+	}
+	reg("internal/bytealg.CountString", func(in *Interp, fr *frame, a []Value) Value {
+		c, ok := concInt(a[1])
+		if !ok {
+			in.abort("unsupported: CountString symbolic byte")
+		}
+		return mkInt(int64(strings.Count(concStr(in, a[0], "CountString"), string([]byte{byte(c)}))))
+	})
+	reg("internal/bytealg.Count", func(in *Interp, fr *frame, a []Value) Value {
+		c, ok := concInt(a[1])
+		if !ok {
+			in.abort("unsupported: Count symbolic byte")
+		}
+		return mkInt(int64(strings.Count(concStr(in, a[0], "Count"), string([]byte{byte(c)}))))
+	})
+	reg("internal/bytealg.IndexString", func(in *Interp, fr *frame, a []Value) Value {
+		return mkInt(int64(strings.Index(concStr(in, a[0], "IndexString"), concStr(in, a[1], "IndexString"))))
+	})
+	reg("internal/bytealg.Index", func(in *Interp, fr *frame, a []Value) Value {
+		return mkInt(int64(strings.Index(concStr(in, a[0], "Index"), concStr(in, a[1], "Index"))))
+	})
+	reg("internal/bytealg.LastIndexByteString", func(in *Interp, fr *frame, a []Value) Value {
+		c, _ := concInt(a[1])
+		return mkInt(int64(strings.LastIndexByte(concStr(in, a[0], "LastIndexByteString"), byte(c))))
+	})
+	reg("internal/bytealg.LastIndexByte", func(in *Interp, fr *frame, a []Value) Value {
+		c, _ := concInt(a[1])
+		return mkInt(int64(strings.LastIndexByte(concStr(in, a[0], "LastIndexByte"), byte(c))))
+	})
+	reg("internal/stringslite.Index", func(in *Interp, fr *frame, a []Value) Value {
+		return mkInt(int64(strings.Index(concStr(in, a[0], "Index"), concStr(in, a[1], "Index"))))
+	})
+
 	// ---- os
 	reg("os.Getenv", func(in *Interp, fr *frame, a []Value) Value { return "" })
 	reg("os.LookupEnv", func(in *Interp, fr *frame, a []Value) Value { return Tuple{"", tFalse} })
